@@ -14,6 +14,7 @@ from prove import Job
 CQ = 'include/oneapi/tbb/concurrent_queue.h'
 QB = 'include/oneapi/tbb/detail/_concurrent_queue_base.h'
 UT = 'include/oneapi/tbb/detail/_utils.h'
+BQ = 'src/tbb/concurrent_bounded_queue.cpp'
 
 
 def extract(ctx):
@@ -78,6 +79,64 @@ def extract(ctx):
     t = tag_loops(t, 'push', rw, expect=1)
     out.append(t)
     common.write(ctx, 'claim.inc', '\n'.join(out) + '\n')
+    # ---- blocking push/pop: who is woken (no lost wake-up) ------------------------------------
+    out = []
+    rw2 = Rewriter('wake')
+    for rel, nm_ in ((CQ, 'cbq_slots_avail_tag'), (CQ, 'cbq_items_avail_tag'), (BQ, 'monitors_number')):
+        m = re.search(r'static constexpr std::size_t %s = (\d+);' % nm_, load(rel))
+        if not m:
+            raise ExtractionBreak('%s: constant %s not found' % (rel, nm_))
+        out.append('#define %s ((size_t)%s)' % (nm_, m.group(1)))
+    s = slice_block(BQ, r'struct predicate_leq')
+    sliced.append('%s:%d predicate_leq' % (BQ, s.line))
+    if not re.search(r'predicate_leq\( std::size_t ticket \) : my_ticket\(ticket\) \{\}', s.text):
+        raise ExtractionBreak('predicate_leq: constructor no longer stores its argument in my_ticket')
+    s = slice_block(BQ, r'bool operator\(\) \( std::uintptr_t ticket \) const', within=r'struct predicate_leq')
+    t = rw2.sub(s.text, r'bool operator\(\) \( std::uintptr_t ticket \) const', 'static bool predicate_leq_call(const struct predicate_leq *self, uintptr_t ticket)', 1, 1, name='sig (functor -> function)')
+    t = rw2.sub(t, r'\bmy_ticket\b', 'self->my_ticket', 1, name='field')
+    t = rw2.casts(t, 0)
+    t = rw2.std(t)
+    out.append('struct predicate_leq { size_t my_ticket; };\n' + t)
+    common.write(ctx, 'wake_decl.inc', '\n'.join(out) + '\n')
+    out = []
+    s = slice_block(BQ, r'void __TBB_EXPORTED_FUNC notify_bounded_queue_monitor\( concurrent_monitor\* monitors,\s*std::size_t monitor_tag, std::size_t ticket\)')
+    sliced.append('%s:%d notify_bounded_queue_monitor' % (BQ, s.line))
+    t = rw2.sub(s.text, r'void __TBB_EXPORTED_FUNC notify_bounded_queue_monitor\( concurrent_monitor\* monitors,\s*std::size_t monitor_tag, std::size_t ticket\)',
+                'static void notify_bounded_queue_monitor(struct concurrent_monitor *monitors, size_t monitor_tag, size_t ticket)', 1, 1, name='sig')
+    t = rw2.sub(t, r'concurrent_monitor& monitor = monitors\[monitor_tag\];', 'struct concurrent_monitor *monitor = &monitors[monitor_tag];', 1, 1, name='ref-local')
+    t = rw2.sub(t, r'monitor\.notify\(predicate_leq\(ticket\)\);', 'STUB_monitor_notify(monitor, (struct predicate_leq){ ticket });', 1, 1, name='callee stub (concurrent_monitor::notify(predicate)); functor constructed from the ticket')
+    t = rw2.asserts(t, 1)
+    out.append(t)
+    WAIT = (r'auto pred = \[&\] \{\s*if \(my_abort_counter\.load\(std::memory_order_relaxed\) != old_abort_counter\) \{\s*throw_exception\(exception_id::user_abort\);\s*\}\s*'
+            r'return (?P<cond>[^;]*);\s*\};\s*try_call\( \[&\] \{\s*internal_wait\(my_monitors, (?P<tag>\w+), (?P<ctx>\w+), pred\);\s*\}\)\.on_exception\( \[&\] \{[^}]*\}\);')
+    WAITREP = r'STUB_wait(self, \g<tag>, \g<ctx>); __CPROVER_assume(!(\g<cond>)); /* wait returns (normally) only once its predicate is false */'
+    for sig, csig, nm in ((r'void internal_pop\( void\* dst \)', 'static void internal_pop(struct bqueue* self, void* dst)', 'bpop'),
+                          (r'void internal_push\( Args&&\.\.\. args \)', 'static void internal_push(struct bqueue* self)', 'bpush'),
+                          (r'bool internal_pop_if_present\( void\* dst \)', 'static bool internal_pop_if_present(struct bqueue* self, void* dst)', 'bpopif')):
+        s = slice_block(CQ, sig, within=r'class concurrent_bounded_queue \{')
+        sliced.append('%s:%d concurrent_bounded_queue::%s' % (CQ, s.line, csig.split('(')[0].split()[-1]))
+        t = rw2.sub(s.text, sig, csig, 1, 1, name='sig')
+        if nm != 'bpopif':
+            t = rw2.sub(t, WAIT, WAITREP, 1, 1, name='wait block: lambda predicate + try_call/on_exception -> STUB_wait + assume(!pred); abort/exception path dropped')
+            t = rw2.sub(t, r'unsigned old_abort_counter = my_abort_counter\.load\(std::memory_order_relaxed\);', '', 1, 1, name='abort counter (dropped with the abort path)')
+        t = rw2.sub(t, r'\*my_queue_representation\b', '*self->my_queue_representation', 0, name='field')
+        t = rw2.sub(t, r'(?<![\w>*])my_queue_representation->', 'self->my_queue_representation->', 0 if nm == 'bpopif' else 1, name='field')
+        t = rw2.sub(t, r'(?<![\w>])my_capacity\b', 'self->my_capacity', 0, name='field')
+        t = rw2.asserts(t, 0)
+        t = rw2.atomics(t, ['head_counter', 'tail_counter'], 0)
+        t = rw2.sub(t, r'self->my_queue_representation->choose\(target\)\.pop\(dst, target, \*self->my_queue_representation, my_allocator\)', 'STUB_lane_pop(self->my_queue_representation, target)', 0, name='callee stub (micro_queue::pop)')
+        t = rw2.sub(t, r'self->my_queue_representation->choose\(ticket\)\.push\(ticket, \*self->my_queue_representation, my_allocator, std::forward<Args>\(args\)\.\.\.\);', 'STUB_lane_push(self, ticket);', 0, name='callee stub (micro_queue::push)')
+        t = rw2.sub(t, r'r1::notify_bounded_queue_monitor\(my_monitors,', 'notify_bounded_queue_monitor(self->my_monitors,', 1, name='callee (extracted)')
+        t = rw2.sub(t, r'bool present\{\};\s*ticket_type ticket\{\};\s*std::tie\(present, ticket\) = internal_try_pop_impl\(dst, \*self->my_queue_representation, my_allocator\);',
+                    'struct pop_result pr_ = STUB_try_pop_impl(self->my_queue_representation); bool present = pr_.first; ticket_type ticket = pr_.second;', 0, name='std::tie of pair -> struct; callee under its proved contract (claim.try_pop)')
+        t = rw2.casts(t, 0)
+        t = rw2.std(t)
+        t = rw2.number_sites(t, nm, by_kind=True)
+        if nm == 'bpop':
+            t = tag_loops(t, nm, rw2, expect=1)
+        out.append(t)
+    common.write(ctx, 'wake.inc', '\n'.join(out) + '\n')
+    fired['wake'] = rw2.fired
     fired['queue'] = rw.fired
     return sliced, fired
 
@@ -89,14 +148,18 @@ def build(ctx):
         Job('ticket.lanes', C, 'h_lanes', route='LF', defines=['TICKET'], target='concurrent_queue_rep::index', source=QB),
         Job('ticket.slots', C, 'h_slots', route='LF', defines=['TICKET'], target='micro_queue slot computation (prepare_page/pop) + modulo_power_of_two + items_per_page', source=QB),
         Job('claim.try_pop', C, 'h_try_pop', route='RG', defines=['CLAIM'], loops=True, nloops=2, target='internal_try_pop_impl (ticket loop)', source=CQ),
+        Job('wake.predicate', C, 'h_wake_pred', route='LF', defines=['CLAIM', 'WAKE'], target='predicate_leq::operator() + notify_bounded_queue_monitor', source=BQ),
+        Job('wake.pop', C, 'h_wake_pop', route='RG', defines=['CLAIM', 'WAKE'], loops=True, nloops=1, target='concurrent_bounded_queue::internal_pop (claim, wait, notify)', source=CQ),
+        Job('wake.push', C, 'h_wake_push', route='RG', defines=['CLAIM', 'WAKE'], target='concurrent_bounded_queue::internal_push (claim, wait, notify)', source=CQ),
+        Job('wake.pop_if_present', C, 'h_wake_popif', route='LF', defines=['CLAIM', 'WAKE'], target='concurrent_bounded_queue::internal_pop_if_present (notify)', source=CQ),
         Job('claim.push_if_not_full', C, 'h_push_if_not_full', route='RG', defines=['CLAIM'], loops=True, nloops=1, target='concurrent_bounded_queue::internal_push_if_not_full', source=CQ),
     ]
     return {
         'jobs': jobs, 'sliced': sliced, 'fired': fired,
-        'trusted': ['micro_queue::push / pop (lane turnstiles, page hand-over): stubs', 'sequentially consistent atomics', 'rely: head_counter and tail_counter only grow, by the CAS / fetch_add of the same functions',
+        'trusted': ['micro_queue::push / pop (lane turnstiles, page hand-over): stubs', 'concurrent_monitor::wait/notify(predicate): notify(p) wakes exactly the sleepers whose context satisfies p; a sleeper re-evaluates its predicate before sleeping (C02, not applicable)', 'sequentially consistent atomics', 'rely: head_counter and tail_counter only grow, by the CAS / fetch_add of the same functions',
                     'fewer than 2^62 tickets between head and tail (signed differences do not wrap)'],
         'drops': ['std::pair result -> struct', 'allocator / forwarded argument packs dropped', 'memory orders'],
-        'not_decided': ['linearizability proper', 'micro-queue turnstiles and page hand-over', 'invalid-entry accounting on exceptions', 'blocking push/pop and abort (concurrent_monitor, C02)', 'unsafe_size / empty snapshots'],
+        'not_decided': ['linearizability proper', 'micro-queue turnstiles and page hand-over', 'invalid-entry accounting on exceptions', 'blocking push/pop: the abort / exception paths (on_exception handlers) are dropped; the monitor itself is C02', 'unsafe_size / empty snapshots'],
         'assumptions': ['atomics are sequentially consistent'],
     }
 
